@@ -137,7 +137,7 @@ class ZoneAnalysis:
             zf = self.zf_spec(path, cg)
             self.analyse_sites(zf)
             summ = {'retlen': self._retlen(zf), 'pre': [s for s in zf.sites if s.status == 'pre'], 'post': self._post_ok(zf), 'retlen_lb': self._retlen_lb(zf),
-                    'retelem': self._retelem(zf), 'post_true': self._post_true_params(zf), 'retval': self._retval(zf), 'post_none': self._post_none(zf),
+                    'retelem': self._retelem(zf), 'post_true': self._post_true_params(zf), 'retval': self._retval(zf), 'post_none': self._post_none(zf), 'retslice': self._retslice(zf),
                     'unknown': [s for s in zf.sites if s.status == 'unknown']}
         finally:
             self._cg_ctx = prev
@@ -354,7 +354,7 @@ class ZoneAnalysis:
             if s.status == 'pre':
                 pre.append(s)
         summ = {'retlen': retlen, 'pre': pre, 'post': self._post_ok(zf), 'retlen_lb': self._retlen_lb(zf), 'retelem': self._retelem(zf),
-                'post_true': self._post_true_params(zf), 'retval': self._retval(zf), 'post_none': self._post_none(zf)}
+                'post_true': self._post_true_params(zf), 'retval': self._retval(zf), 'post_none': self._post_none(zf), 'retslice': self._retslice(zf)}
         self._inprog.discard(path)
         self._summ[path] = summ
         return summ
@@ -378,6 +378,46 @@ class ZoneAnalysis:
                      and not (t1[0] is None and t2[0] is None))
             common = fs if common is None else (common & fs)
         return sorted(common or [], key=str)
+
+    def _retslice(self, zf):
+        """{component path of the return value: (parameter, field path, start, end)} for returned references to a sub-slice of a parameter's
+        container (through Ok / Some and tuples): `Ok((*Q1, H_points))` with `(Q1, H_points) = self.values.split_first()?`"""
+        body, fd = zf.body, zf.fd
+        out = {}
+
+        def comp(path, o):
+            if o['k'] not in ('copy', 'move'):
+                return
+            ty = body.local_ty(o['pl']['l']).replace('&mut ', '').lstrip('&').strip()
+            if not o['pl'].get('p') and not ty.startswith(('[', 'std::vec::Vec<')):
+                # maybe an aggregate built just before: descend
+                d = zf.single_def(o['pl']['l'])
+                if d and d[0] == 'assign' and d[2]['rv']['k'] == 'agg' and d[2]['rv'].get('ak') in ('tuple', 'adt') and len(path) < 3:
+                    rv = d[2]['rv']
+                    names = [str(i) for i in range(len(rv['ops']))] if rv['ak'] == 'tuple' else [str(f) for f in rv['fields']]
+                    wrapper = rv['ak'] == 'adt' and rv['name'].split('::')[-1] in ('Result', 'Option')
+                    for nm, o2 in zip(names, rv['ops']):
+                        comp(path if wrapper else path + (nm,), o2)
+                return
+            so = zf.slice_origin(zf.desc_place(o['pl']))
+            if so is None:
+                return
+            root, st, en = so
+            if root[0] == 'cont' and fd.is_param(root[1]) and st is not None and self._param_term_ok(zf, st):
+                prev = out.get(path)
+                cur = (root[1], tuple(root[2]), st, en if (en is not None and self._param_term_ok(zf, en)) else None)
+                out[path] = cur if prev is None or prev == cur else False
+
+        for kind, bi, x in fd.defs.get(0, []):
+            if kind == 'assign' and not x['dst'].get('p') and x['rv']['k'] == 'agg':
+                rv = x['rv']
+                if rv.get('variant') in ('Err', 'None'):
+                    continue
+                names = [str(i) for i in range(len(rv['ops']))] if rv.get('ak') == 'tuple' else [str(f) for f in (rv.get('fields') or [])]
+                wrapper = rv.get('ak') == 'adt' and rv['name'].split('::')[-1] in ('Result', 'Option')
+                for nm, o in zip(names, rv['ops']):
+                    comp(() if wrapper else (nm,), o)
+        return {k: v for k, v in out.items() if v}
 
     def _post_none(self, zf):
         """facts over parameter symbols that hold whenever an Option-returning function returns None: a search helper
